@@ -190,32 +190,42 @@ def build(repo=None):
             finder_found = Opaque("PathFinder")
 
             def loop_h(e, node, s0):
-                if not (isinstance(node.target, ast.Tuple) and node.orelse and "meta_path" in ast.unparse(node.iter)):
-                    # some other loop over sys.meta_path (or whatever): zero iterations, or one with an arbitrary element
-                    outs = [(s0.fork(None, "other-loop:skipped"), NORMAL)]
-                    if isinstance(node.target, ast.Name):
-                        s1 = s0.clone()
-                        s1.env[node.target.id] = Opaque("some-existing-finder")
-                        s1.path.append("other-loop:one-iteration")
-                        for s2, o2 in e.run(node.body, s1):
-                            outs.append((s2, NORMAL if o2.kind in ("normal", "continue", "break") else o2))
-                        return outs
+                # a SEARCH over sys.meta_path (directly or through enumerate), in install_import_hook or in a helper it calls:
+                #   some element makes the body leave the loop (break / return): that element is the PathFinder found
+                #   no element does: the loop is exhausted (its else-suite runs)
+                if "meta_path" not in ast.unparse(node.iter):
                     raise Unsupported("install_import_hook: unrecognised loop")
-                # for i, finder in enumerate(sys.meta_path): if <is PathFinder>: break / else: raise
-                found = s0.clone()
                 tgt = node.target
-                found.env[tgt.elts[0].id] = Z("int", z3.FreshConst(INT, "i"))
-                found.env[tgt.elts[1].id] = finder_found
-                found.path.append("pathfinder:found")
-                outs = [(found, NORMAL)]
+                found = s0.clone()
+                if isinstance(tgt, ast.Tuple) and len(tgt.elts) == 2 and all(isinstance(x, ast.Name) for x in tgt.elts):
+                    found.env[tgt.elts[0].id] = Z("int", z3.FreshConst(INT, "i"))
+                    found.env[tgt.elts[1].id] = finder_found
+                elif isinstance(tgt, ast.Name):
+                    found.env[tgt.id] = finder_found
+                else:
+                    raise Unsupported("install_import_hook: loop target")
+                found.path.append("pathfinder:candidate")
+                outs = []
+                for s2, o2 in e.run(node.body, found):
+                    if o2.kind == "break":
+                        s2.path.append("pathfinder:found")
+                        outs.append((s2, NORMAL))
+                    elif o2.kind == "return" or (o2.kind == "raise" and getattr(o2.val, "origin", None) in ("explicit", "constructed")):
+                        # (attribute reads on the entries of sys.meta_path -- isclass / __name__ / hasattr -- are taken not to raise)
+                        s2.path.append("pathfinder:found" if o2.kind == "return" else "pathfinder:raised")
+                        outs.append((s2, o2))
+                    # normal / continue: this element was not the one -- covered by the exhausted path
                 missing = s0.clone()
                 missing.path.append("pathfinder:missing")
-                for s2, o2 in e.run(node.orelse, missing):
-                    outs.append((s2, o2))
+                if node.orelse:
+                    outs.extend(e.run(node.orelse, missing))
+                else:
+                    outs.append((missing, NORMAL))
                 return outs
 
-            for lp in [x for x in ast.walk(ih) if isinstance(x, ast.For)]:
-                eng.loop_specs[id(lp)] = loop_h
+            for fnode in [ih] + [b_ for b_ in mod.tree.body if isinstance(b_, ast.FunctionDef) and b_ is not ih]:
+                for lp in [x for x in ast.walk(fnode) if isinstance(x, ast.For) and "meta_path" in ast.unparse(x.iter)]:
+                    eng.loop_specs[id(lp)] = loop_h
 
             def m_insert(e, s, recv, args, kwargs, node):
                 if isinstance(recv, Opaque) and recv.tag.endswith("meta_path"):
